@@ -219,6 +219,15 @@ def prop_resume_limit(case, rec):
         if r.lines != bu.lines[:n]:
             raise Violation('limit_on_resume', f'quit after guess {j}, --load -n {n}: {len(r.lines)} lines written, expected {min(n, total)} = the first lines of the '
                             f'unlimited resume (its first {in_remainder} lines are the restored Markov remainder); tail {r.lines[-3:]} vs {bu.lines[:n][-3:]}', sub)
+        if n < total and case.get('then_load_again', True):
+            # the limited resume ended by its limit (no quit, so nothing need be saved): one more --load must still deliver whatever the
+            # limited run did not write - replaying is allowed, losing is not
+            r3 = guard(sub, session.run_main, root, ['-r', 'T', '-s', 's', '--load'])
+            lost = Counter(bu.lines) - (Counter(r.lines) + Counter(r3.lines))
+            rec.cls('load_again_after_a_limited_resume')
+            if lost:
+                raise Violation('lost_after_limited_resume', f'quit after guess {j}, --load -n {n} (wrote {len(r.lines)}), then --load: never written by either: '
+                                f'{list(lost.items())[:5]} (second resume starts with {r3.lines[:3]})', sub)
 
 
 @st.composite
@@ -251,7 +260,7 @@ def run_cli(root, args, stdin_mode, timeout=120, ctx=None):
     ctx = ctx or cli.DEFAULT
     env = cli.env_for(ctx)
     cwd = cli.cwd_for(root, ctx)
-    cmd = [sys.executable, os.path.join(root, 'pcfg_guesser.py')] + args
+    cmd = [sys.executable, cli.script_path(root, 'pcfg_guesser.py', ctx)] + args
     if stdin_mode == 'devnull':
         p = subprocess.run(cmd, stdin=subprocess.DEVNULL, capture_output=True, env=env, timeout=timeout, cwd=cwd)
         return p.stdout, p.stderr, p.returncode
